@@ -5,8 +5,9 @@ Three ways of executing a *history* (a list of event names):
   * in this process (only ever done in a forked child or in a fresh interpreter),
   * in a fork tree: a pristine interpreter (only `import periodictable`, plus the
     third-party numpy/pyparsing) forks a child that replays history h; the child
-    forks one grandchild per candidate event; each grandchild applies one event
-    and reports (event value, abstract loader state, loader trace) over a pipe,
+    forks grandchildren that apply one more event each to that state and report
+    (event value, abstract loader state, loader trace) over a pipe; attribute
+    events that changed nothing may share a grandchild (see expand_here),
   * in a fresh interpreter (`python -c`), used for the canonical values, for every
     violating history and for random samples, so that no verdict rests on fork().
 
